@@ -102,6 +102,24 @@ def job_tail_concrete(P, C, D, N, setting):
     P.run("tail-concrete", sc_tail_concrete, dict(C=C, D=D, N=N, setting=setting), range_mode=True)
 
 
+def sc_batch_only(B, C, D, N):
+    m, P = make_gmm(B, C, D, "matrix")
+    X = B.arr("x", (N, D))
+    from symexec.engine import Outcome
+
+    o = Outcome()
+    o.equal("mixture-density", m.log_likelihood(X), [o_ll(B, P, X[i]) for i in range(N)])
+    return o
+
+
+def job_boundary(P):
+    """witness search beyond the symbolic bound: batch sizes around the integer constants of the source"""
+    from symexec import loader
+
+    sizes = sorted({n for c in loader.int_constants() for n in (c - 1, c, c + 1, 2 * c + 1) if 8 <= n <= 5000})
+    P.probe_real("boundary-batch", sc_batch_only, [dict(C=2, D=2, N=n) for n in sizes], tries=1)
+
+
 def job_density(P, C, D, N, floor):
     P.run("density", sc_density, dict(C=C, D=D, N=N, floor=floor))
     for order in ("floors-last", "floors-after-use"):
@@ -124,6 +142,7 @@ def jobs(tier):
         out.append(("tail@C%dD%dN%d" % (C, D, N), "job_tail", dict(C=C, D=D, N=N)))
         for st in SETTINGS:
             out.append(("tailc@C%dD%dN%d-%s" % (C, D, N, st), "job_tail_concrete", dict(C=C, D=D, N=N, setting=st)))
+    out.append(("boundary", "job_boundary", {}))
     dn = [(2, 2, 3), (2, 1, 4)] if tier == "quick" else [(2, 2, 3), (2, 1, 4), (3, 2, 4), (2, 2, 5)]
     for (C, D, N) in dn:
         for comp in compositions(N):
